@@ -1,5 +1,6 @@
 import JellyModel.Lookup
 import JellyModel.Spec
+import JellyProofs.Lemmas.Pin
 /-!
 # Single-table theory for the writer/reference-decoder simulation (C03)
 
@@ -72,17 +73,41 @@ theorem Lookup.WF.of_perm {l l' : Lookup} (wf : l.WF) (hp : l'.data.Perm l.data)
   · rw [hl, hm]; exact wf.lenLe
   · rw [he, hl, hm]; exact wf.ev
 
-/-- `move_to_end` on a resident entry. -/
-def Lookup.bump (l : Lookup) (e : String × Nat) : Lookup := { l with data := l.data.erase e ++ [e] }
+/-- `move_to_end` on a resident entry (the key gets pinned to the current row). -/
+def Lookup.bump (l : Lookup) (e : String × Nat) : Lookup :=
+  ({ l with data := l.data.erase e ++ [e] } : Lookup).pin e.1
 
-theorem Lookup.bump_perm {l : Lookup} {e} (h : e ∈ l.data) : (l.bump e).data.Perm l.data :=
-  (List.perm_append_comm).trans (List.perm_cons_erase h).symm
+@[simp] theorem Lookup.bump_data (l : Lookup) (e : String × Nat) :
+    (l.bump e).data = l.data.erase e ++ [e] := by
+  unfold Lookup.bump; rw [Lookup.pin_data]
+
+@[simp] theorem Lookup.bump_maxSize (l : Lookup) (e : String × Nat) : (l.bump e).maxSize = l.maxSize := by
+  unfold Lookup.bump; rw [Lookup.pin_maxSize]
+
+@[simp] theorem Lookup.bump_evicting (l : Lookup) (e : String × Nat) : (l.bump e).evicting = l.evicting := by
+  unfold Lookup.bump; rw [Lookup.pin_evicting]
+
+theorem Lookup.bump_pinned (l : Lookup) (e : String × Nat) :
+    (l.bump e).pinned = l.pinned.map (e.1 :: ·) := by
+  unfold Lookup.bump; rw [Lookup.pin_pinned]
+
+theorem Lookup.bump_perm {l : Lookup} {e} (h : e ∈ l.data) : (l.bump e).data.Perm l.data := by
+  rw [Lookup.bump_data]
+  exact (List.perm_append_comm).trans (List.perm_cons_erase h).symm
 
 theorem Lookup.mem_bump {l : Lookup} {e} (h : e ∈ l.data) {x} : x ∈ (l.bump e).data ↔ x ∈ l.data :=
   (Lookup.bump_perm h).mem_iff
 
 theorem Lookup.WF.bump {l : Lookup} (wf : l.WF) {e} (h : e ∈ l.data) : (l.bump e).WF :=
-  wf.of_perm (Lookup.bump_perm h) rfl rfl
+  wf.of_perm (Lookup.bump_perm h) (by simp) (by simp)
+
+/-- Well-formedness does not look at `pinned`. -/
+theorem Lookup.WF.congr {l l' : Lookup} (wf : l.WF) (hd : l'.data = l.data) (hm : l'.maxSize = l.maxSize)
+    (he : l'.evicting = l.evicting) : l'.WF :=
+  wf.of_perm (by rw [hd]) hm he
+
+theorem Lookup.WF.pin {l : Lookup} (wf : l.WF) (k : String) : (l.pin k).WF :=
+  wf.congr (by simp) (by simp) (by simp)
 
 theorem Lookup.find?_of_mem {l : Lookup} (wf : l.WF) {k i} (h : (k, i) ∈ l.data) :
     l.find? k = some (k, i) := by
@@ -120,29 +145,38 @@ theorem Lookup.moveToEnd_eq_none {l : Lookup} {k} (h : k ∉ l.data.map (·.1)) 
   unfold Lookup.moveToEnd
   rw [Lookup.find?_eq_none.mpr h]
 
-/-! ## `entryIndex`: the three ways it succeeds -/
+/-! ## `entryIndex`: the three ways it succeeds, and the one way it is refused -/
 
 inductive EntryCase (e : LookupEnc) (k : String) (e' : LookupEnc) (oid : Option Nat) : Prop
   | hit (i : Nat) (hm : (k, i) ∈ e.lookup.data)
       (he : e' = { e with lookup := e.lookup.bump (k, i) }) (ho : oid = none)
   | fill (hk : k ∉ e.lookup.data.map (·.1)) (hlt : e.lookup.data.length < e.lookup.maxSize)
       (he : e' = { e with
-        lookup := { e.lookup with data := e.lookup.data ++ [(k, e.lookup.data.length + 1)],
-                                  evicting := e.lookup.data.length + 1 == e.lookup.maxSize },
+        lookup := ({ e.lookup with data := e.lookup.data ++ [(k, e.lookup.data.length + 1)],
+                                   evicting := e.lookup.data.length + 1 == e.lookup.maxSize } : Lookup).pin k,
         lastAssigned := e.lookup.data.length + 1 })
       (ho : oid = some (if e.lookup.data.length + 1 == e.lastAssigned + 1 then 0
                         else e.lookup.data.length + 1))
   | evict (k0 : String) (i0 : Nat) (rest : List (String × Nat))
       (hk : k ∉ e.lookup.data.map (·.1)) (hd : e.lookup.data = (k0, i0) :: rest)
       (hfull : e.lookup.data.length = e.lookup.maxSize)
-      (he : e' = { e with lookup := { e.lookup with data := rest ++ [(k, i0)] }, lastAssigned := i0 })
+      (hnp : e.lookup.isPinned k0 = false)
+      (he : e' = { e with lookup := ({ e.lookup with data := rest ++ [(k, i0)] } : Lookup).pin k,
+                          lastAssigned := i0 })
       (ho : oid = some (if i0 == e.lastAssigned + 1 then 0 else i0))
 
+/-- The refusal: the table is full, the key is new and the least recently used entry is pinned by
+    the row being encoded. -/
+structure EntryRefused (e : LookupEnc) (k : String) : Prop where
+  err : e.entryIndex k = .error .conformance
+  ex : ∃ k0 i0 rest, k ∉ e.lookup.data.map (·.1) ∧ e.lookup.data = (k0, i0) :: rest ∧
+        e.lookup.data.length = e.lookup.maxSize ∧ e.lookup.isPinned k0 = true
+
 theorem entryIndex_cases {e : LookupEnc} (wf : e.lookup.WF) (hpos : 0 < e.lookup.maxSize) (k : String) :
-    ∃ e' oid, e.entryIndex k = .ok (e', oid) ∧ EntryCase e k e' oid := by
+    (∃ e' oid, e.entryIndex k = .ok (e', oid) ∧ EntryCase e k e' oid) ∨ EntryRefused e k := by
   by_cases hk : k ∈ e.lookup.data.map (·.1)
   · obtain ⟨i, hi⟩ := exists_of_mem_keys hk
-    refine ⟨_, _, ?_, EntryCase.hit i hi rfl rfl⟩
+    refine Or.inl ⟨_, _, ?_, EntryCase.hit i hi rfl rfl⟩
     simp only [LookupEnc.entryIndex, Lookup.moveToEnd_of_mem wf hi]
   · have hne : (e.lookup.maxSize == 0) = false := by simp; omega
     by_cases hev : e.lookup.evicting = true
@@ -152,17 +186,41 @@ theorem entryIndex_cases {e : LookupEnc} (wf : e.lookup.WF) (hpos : 0 < e.lookup
       | nil => rw [hd] at hfull; simp at hfull; omega
       | cons x rest =>
         obtain ⟨k0, i0⟩ := x
-        refine ⟨_, _, ?_, EntryCase.evict k0 i0 rest hk hd hfull rfl rfl⟩
-        simp only [LookupEnc.entryIndex, Lookup.moveToEnd_eq_none hk, Lookup.insert, hne, hev, hd]
-        rfl
+        cases hnp : e.lookup.isPinned k0 with
+        | false =>
+          refine Or.inl ⟨_, _, ?_, EntryCase.evict k0 i0 rest hk hd hfull hnp rfl rfl⟩
+          simp only [LookupEnc.entryIndex, Lookup.moveToEnd_eq_none hk, Lookup.insert, hne, hev, hd, hnp]
+          rfl
+        | true =>
+          refine Or.inr ⟨?_, k0, i0, rest, hk, hd, hd ▸ hfull, hnp⟩
+          simp only [LookupEnc.entryIndex, Lookup.moveToEnd_eq_none hk, Lookup.insert, hne, hev, hd, hnp]
+          rfl
     · have hev' : e.lookup.evicting = false := by simpa using hev
       have hlt : e.lookup.data.length < e.lookup.maxSize := by
         have := wf.ev hpos; rw [hev'] at this
         have h2 : e.lookup.data.length ≠ e.lookup.maxSize := by simpa using this.symm
         have := wf.lenLe; omega
-      refine ⟨_, _, ?_, EntryCase.fill hk hlt rfl rfl⟩
+      refine Or.inl ⟨_, _, ?_, EntryCase.fill hk hlt rfl rfl⟩
       simp only [LookupEnc.entryIndex, Lookup.moveToEnd_eq_none hk, Lookup.insert, hne, hev']
       rfl
+
+/-- A successful `entryIndex` is one of the three cases. -/
+theorem entryIndex_ok_case {e : LookupEnc} (wf : e.lookup.WF) (hpos : 0 < e.lookup.maxSize) {k : String}
+    {e' oid} (h : e.entryIndex k = .ok (e', oid)) : EntryCase e k e' oid := by
+  rcases entryIndex_cases wf hpos k with ⟨e1, oid1, h1, c⟩ | hr
+  · rw [h1] at h
+    injection h with h; injection h with ha hb; subst ha hb; exact c
+  · rw [hr.err] at h; exact absurd h (by simp)
+
+/-- With no pin tracking (`pinned = none`) `entryIndex` is never refused. -/
+theorem entryIndex_cases_unpinned {e : LookupEnc} (wf : e.lookup.WF) (hpos : 0 < e.lookup.maxSize)
+    (hn : e.lookup.pinned = none) (k : String) :
+    ∃ e' oid, e.entryIndex k = .ok (e', oid) ∧ EntryCase e k e' oid := by
+  rcases entryIndex_cases wf hpos k with h | hr
+  · exact h
+  · obtain ⟨k0, _, _, _, _, _, hp⟩ := hr.ex
+    rw [Lookup.isPinned_of_none hn] at hp
+    exact absurd hp (by simp)
 
 theorem EntryCase.basic {e e' : LookupEnc} {k oid} (wf : e.lookup.WF) (hpos : 0 < e.lookup.maxSize)
     (c : EntryCase e k e' oid) :
@@ -171,10 +229,10 @@ theorem EntryCase.basic {e e' : LookupEnc} {k oid} (wf : e.lookup.WF) (hpos : 0 
   cases c with
   | hit i hm he ho =>
     subst he
-    exact ⟨wf.bump hm, rfl, rfl, i, (Lookup.mem_bump hm).mpr hm⟩
+    exact ⟨wf.bump hm, by simp, rfl, i, (Lookup.mem_bump hm).mpr hm⟩
   | fill hk hlt he ho =>
     subst he
-    refine ⟨⟨?_, ?_, ?_, ?_⟩, rfl, rfl, e.lookup.data.length + 1, by simp⟩
+    refine ⟨Lookup.WF.pin ⟨?_, ?_, ?_, ?_⟩ k, by simp, rfl, e.lookup.data.length + 1, by simp⟩
     · simp only [List.map_append, List.map_cons, List.map_nil]
       refine List.nodup_append.mpr ⟨wf.keysNodup, by simp, ?_⟩
       intro a ha b hb; simp at hb; subst hb
@@ -185,12 +243,12 @@ theorem EntryCase.basic {e e' : LookupEnc} {k oid} (wf : e.lookup.WF) (hpos : 0 
       exact List.Perm.append wf.idxPerm (by simp; omega)
     · simp; omega
     · intro _; simp
-  | evict k0 i0 rest hk hd hfull he ho =>
+  | evict k0 i0 rest hk hd hfull hnp he ho =>
     subst he
     have hkeys := wf.keysNodup; have hidx := wf.idxPerm
     rw [hd] at hkeys hidx hfull
     simp only [List.map_cons, List.nodup_cons, List.length_cons] at hkeys hidx hfull
-    refine ⟨⟨?_, ?_, ?_, ?_⟩, rfl, rfl, i0, by simp⟩
+    refine ⟨Lookup.WF.pin ⟨?_, ?_, ?_, ?_⟩ k, by simp, rfl, i0, by simp⟩
     · simp only [List.map_append, List.map_cons, List.map_nil]
       refine List.nodup_append.mpr ⟨hkeys.2, by simp, ?_⟩
       intro a ha b hb; simp at hb; subst hb
@@ -206,6 +264,14 @@ theorem EntryCase.basic {e e' : LookupEnc} {k oid} (wf : e.lookup.WF) (hpos : 0 
       simp only [List.length_cons] at this
       simp only [List.length_append, List.length_cons, List.length_nil]
       exact this
+
+/-- Every successful case pins the key. -/
+theorem EntryCase.pinned {e e' : LookupEnc} {k oid} (c : EntryCase e k e' oid) :
+    e'.lookup.pinned = e.lookup.pinned.map (k :: ·) := by
+  cases c with
+  | hit i hm he ho => subst he; exact Lookup.bump_pinned _ _
+  | fill hk hlt he ho => subst he; exact Lookup.pin_pinned _ _
+  | evict k0 i0 rest hk hd hfull hnp he ho => subst he; exact Lookup.pin_pinned _ _
 
 /-! ## Entry rows: the reader table mirrors the writer table -/
 
@@ -255,7 +321,7 @@ theorem EntryCase.mirror {e e' : LookupEnc} {k oid} {t : LookupDec} (wf : e.look
   cases c with
   | hit i hm he ho =>
     subst he ho
-    refine ⟨t, rfl, ⟨m.size, m.len, m.la, ?_⟩, rfl⟩
+    refine ⟨t, rfl, ⟨by simpa using m.size, by simpa using m.len, m.la, ?_⟩, rfl⟩
     intro k' i' h
     exact m.res k' i' ((Lookup.mem_bump hm).mp h)
   | fill hk hlt he ho =>
@@ -267,14 +333,14 @@ theorem EntryCase.mirror {e e' : LookupEnc} {k oid} {t : LookupDec} (wf : e.look
       rw [m.la]
       split <;> simp_all
     refine ⟨_, assign_eq (i := e.lookup.data.length + 1) (by omega) (by have := m.size; omega) hid, ?_, rfl⟩
-    apply mirror_after_set (l' := ⟨e.lookup.maxSize, e.lookup.data ++ [(k, e.lookup.data.length + 1)],
-      e.lookup.data.length + 1 == e.lookup.maxSize⟩) wf m rfl (by omega) (by omega)
+    apply mirror_after_set (l' := (⟨e.lookup.maxSize, e.lookup.data ++ [(k, e.lookup.data.length + 1)],
+      e.lookup.data.length + 1 == e.lookup.maxSize, e.lookup.pinned⟩ : Lookup).pin k) wf m (by simp) (by omega) (by omega)
     intro k' i' hm'
-    simp only [List.mem_append, List.mem_singleton] at hm'
+    simp only [Lookup.pin_data, List.mem_append, List.mem_singleton] at hm'
     rcases hm' with hm' | hm'
     · right; exact ⟨hm', by have := wf.idx_range hm'; omega⟩
     · left; exact hm'
-  | evict k0 i0 rest hk hd hfull he ho =>
+  | evict k0 i0 rest hk hd hfull hnp he ho =>
     subst he ho
     have hmem0 : (k0, i0) ∈ e.lookup.data := by rw [hd]; simp
     have hr0 := wf.idx_range hmem0
@@ -288,9 +354,10 @@ theorem EntryCase.mirror {e e' : LookupEnc} {k oid} {t : LookupDec} (wf : e.look
     have hidxnd : (i0 :: rest.map (·.2)).Nodup :=
       (hidx.nodup_iff).mpr (List.nodup_range' (step := 1) (by omega))
     refine ⟨_, assign_eq (i := i0) (by omega) (by have := m.size; omega) hid, ?_, rfl⟩
-    apply mirror_after_set (l' := { e.lookup with data := rest ++ [(k, i0)] }) wf m rfl (by omega) (by omega)
+    apply mirror_after_set (l' := ({ e.lookup with data := rest ++ [(k, i0)] } : Lookup).pin k) wf m (by simp)
+      (by omega) (by omega)
     intro k' i' hm'
-    simp only [List.mem_append, List.mem_singleton] at hm'
+    simp only [Lookup.pin_data, List.mem_append, List.mem_singleton] at hm'
     rcases hm' with hm' | hm'
     · right
       refine ⟨by rw [hd]; exact List.mem_cons_of_mem _ hm', ?_⟩
@@ -369,83 +436,140 @@ theorem Rec.bump {data : List (String × Nat)} {R : List String} {k : String} {i
       · exact List.mem_cons_of_mem _ (h2 x (List.mem_of_mem_erase hx))
       · simp only [List.mem_singleton] at hx; subst hx; exact List.mem_cons_self
 
-theorem EntryCase.lru {e e' : LookupEnc} {k oid} {R T : List String} (wf : e.lookup.WF)
-    (c : EntryCase e k e' oid) (hrec : Rec e.lookup.data R) (hsub : ∀ x ∈ k :: R, x ∈ T)
-    (hfit : Fits T e.lookup.maxSize) :
-    Rec e'.lookup.data (k :: R) ∧ Pres (k :: R) e.lookup.data e'.lookup.data := by
-  cases c with
+/-- The pin bookkeeping of the row being encoded: tracking is on, and the pinned keys are exactly
+    the keys `R` touched so far in this row. -/
+def PinOK (l : Lookup) (R : List String) : Prop :=
+  ∃ ps, l.pinned = some ps ∧ ∀ k, k ∈ ps ↔ k ∈ R
+
+theorem PinOK.nil {l : Lookup} (h : l.pinned = some []) : PinOK l [] := ⟨[], h, fun _ => Iff.rfl⟩
+
+theorem PinOK.congr {l : Lookup} {R R' : List String} (h : PinOK l R) (hiff : ∀ x, x ∈ R ↔ x ∈ R') :
+    PinOK l R' := by
+  obtain ⟨ps, hp, hi⟩ := h
+  exact ⟨ps, hp, fun k => (hi k).trans (hiff k)⟩
+
+theorem PinOK.isPinned {l : Lookup} {R : List String} (h : PinOK l R) (k : String) :
+    l.isPinned k = true ↔ k ∈ R := by
+  obtain ⟨ps, hp, hi⟩ := h
+  rw [Lookup.isPinned_some hp, List.contains_iff_mem]
+  exact hi k
+
+theorem PinOK.cons {l l' : Lookup} {R : List String} {k : String} (h : PinOK l R)
+    (hp : l'.pinned = l.pinned.map (k :: ·)) : PinOK l' (k :: R) := by
+  obtain ⟨ps, hps, hi⟩ := h
+  refine ⟨k :: ps, by rw [hp, hps]; rfl, ?_⟩
+  intro x
+  simp only [List.mem_cons, hi x]
+
+/-- LRU bookkeeping of a successful `entryIndex` (no sizing hypothesis: an eviction that goes
+    through never hits a key of the current row, because those are pinned). -/
+theorem EntryCase.lru {e e' : LookupEnc} {k oid} {R : List String} (wf : e.lookup.WF)
+    (c : EntryCase e k e' oid) (hrec : Rec e.lookup.data R) (hpin : PinOK e.lookup R) :
+    Rec e'.lookup.data (k :: R) ∧ Pres (k :: R) e.lookup.data e'.lookup.data ∧
+      PinOK e'.lookup (k :: R) := by
+  have hpin' : PinOK e'.lookup (k :: R) := hpin.cons c.pinned
+  refine ⟨?_, ?_, hpin'⟩
+  all_goals cases c with
   | hit i hm he ho =>
     subst he
-    exact ⟨hrec.bump hm, fun k' i' _ h => (Lookup.mem_bump hm).mpr h⟩
+    first
+      | exact (by simpa using hrec.bump hm)
+      | exact fun k' i' _ h => (Lookup.mem_bump hm).mpr h
   | fill hk hlt he ho =>
     subst he
-    refine ⟨?_, fun k' i' _ h => List.mem_append_left _ h⟩
-    obtain ⟨old, recent, hd, h1, h2⟩ := hrec
-    refine ⟨old, recent ++ [(k, e.lookup.data.length + 1)], ?_, ?_, ?_⟩
-    · show e.lookup.data ++ _ = _
-      rw [hd, List.append_assoc]
-    · intro k' hk'
-      simp only [List.map_append, List.map_cons, List.map_nil, List.mem_append, List.mem_singleton]
-      rcases List.mem_cons.mp hk' with rfl | hk'
-      · exact Or.inr rfl
-      · exact Or.inl (h1 k' hk')
-    · intro x hx
-      rcases List.mem_append.mp hx with hx | hx
-      · exact List.mem_cons_of_mem _ (h2 x hx)
-      · simp only [List.mem_singleton] at hx; subst hx; exact List.mem_cons_self
-  | evict k0 i0 rest hk hd hfull he ho =>
+    first
+      | (intro k' i' _ h; simp only [Lookup.pin_data]; exact List.mem_append_left _ h)
+      | (obtain ⟨old, recent, hd, h1, h2⟩ := hrec
+         refine ⟨old, recent ++ [(k, e.lookup.data.length + 1)], ?_, ?_, ?_⟩
+         · simp only [Lookup.pin_data]
+           rw [hd, List.append_assoc]
+         · intro k' hk'
+           simp only [List.map_append, List.map_cons, List.map_nil, List.mem_append, List.mem_singleton]
+           rcases List.mem_cons.mp hk' with rfl | hk'
+           · exact Or.inr rfl
+           · exact Or.inl (h1 k' hk')
+         · intro x hx
+           rcases List.mem_append.mp hx with hx | hx
+           · exact List.mem_cons_of_mem _ (h2 x hx)
+           · simp only [List.mem_singleton] at hx; subst hx; exact List.mem_cons_self)
+  | evict k0 i0 rest hk hd hfull hnp he ho =>
     subst he
     obtain ⟨old, recent, hdr, h1, h2⟩ := hrec
     have hkeys := wf.keysNodup
-    -- the victim is not a recently touched key
+    -- the victim is not pinned, hence not a key of this row, hence not in `recent`
     cases old with
     | nil =>
       exfalso
       simp only [List.nil_append] at hdr
-      have hnd : (k :: e.lookup.data.map (·.1)).Nodup := List.nodup_cons.mpr ⟨hk, hkeys⟩
-      have hsub' : ∀ x ∈ k :: e.lookup.data.map (·.1), x ∈ T := by
-        intro x hx
-        rcases List.mem_cons.mp hx with rfl | hx
-        · exact hsub _ List.mem_cons_self
-        · obtain ⟨y, hy, rfl⟩ := List.mem_map.mp hx
-          rw [hdr] at hy
-          exact hsub _ (List.mem_cons_of_mem _ (h2 y hy))
-      have := hfit _ hnd hsub'
-      simp only [List.length_cons, List.length_map] at this
-      omega
+      have : (k0, i0) ∈ recent := by rw [← hdr, hd]; simp
+      have := (hpin.isPinned k0).mpr (h2 _ this)
+      rw [hnp] at this; exact absurd this (by simp)
     | cons x old' =>
       rw [hd] at hdr
       simp only [List.cons_append] at hdr
       injection hdr with hx hrest
       subst hx
-      refine ⟨⟨old', recent ++ [(k, i0)], ?_, ?_, ?_⟩, ?_⟩
-      · show rest ++ _ = _
-        rw [hrest, List.append_assoc]
-      · intro k' hk'
-        simp only [List.map_append, List.map_cons, List.map_nil, List.mem_append, List.mem_singleton]
-        rcases List.mem_cons.mp hk' with rfl | hk'
-        · exact Or.inr rfl
-        · exact Or.inl (h1 k' hk')
-      · intro x hx
-        rcases List.mem_append.mp hx with hx | hx
-        · exact List.mem_cons_of_mem _ (h2 x hx)
-        · simp only [List.mem_singleton] at hx; subst hx; exact List.mem_cons_self
-      · intro k' i' hk' hm'
-        show (k', i') ∈ rest ++ _
-        apply List.mem_append_left
-        rw [hd] at hm'
-        rcases List.mem_cons.mp hm' with heq | hm'
-        · exfalso
-          injection heq with h1' h2'
-          subst h1' h2'
-          -- k' is the head key, hence in `old`, hence not in `recent`; but it is in `k :: R`
-          rcases List.mem_cons.mp hk' with rfl | hk'
-          · apply hk; rw [hd]; simp
-          · have hrk := h1 k' hk'
-            rw [hd, hrest] at hkeys
-            simp only [List.map_cons, List.map_append, List.nodup_cons, List.mem_append] at hkeys
-            exact hkeys.1 (Or.inr hrk)
-        · exact hm'
+      first
+        | (refine ⟨old', recent ++ [(k, i0)], ?_, ?_, ?_⟩
+           · simp only [Lookup.pin_data]
+             rw [hrest, List.append_assoc]
+           · intro k' hk'
+             simp only [List.map_append, List.map_cons, List.map_nil, List.mem_append, List.mem_singleton]
+             rcases List.mem_cons.mp hk' with rfl | hk'
+             · exact Or.inr rfl
+             · exact Or.inl (h1 k' hk')
+           · intro x hx
+             rcases List.mem_append.mp hx with hx | hx
+             · exact List.mem_cons_of_mem _ (h2 x hx)
+             · simp only [List.mem_singleton] at hx; subst hx; exact List.mem_cons_self)
+        | (intro k' i' hk' hm'
+           simp only [Lookup.pin_data]
+           apply List.mem_append_left
+           rw [hd] at hm'
+           rcases List.mem_cons.mp hm' with heq | hm'
+           · exfalso
+             injection heq with h1' h2'
+             subst h1' h2'
+             rcases List.mem_cons.mp hk' with rfl | hk'
+             · apply hk; rw [hd]; simp
+             · have hrk := h1 k' hk'
+               rw [hd, hrest] at hkeys
+               simp only [List.map_cons, List.map_append, List.nodup_cons, List.mem_append] at hkeys
+               exact hkeys.1 (Or.inr hrk)
+           · exact hm')
+
+/-- A refusal means that the row does not fit: all `maxSize` resident keys plus the new one belong
+    to this row. -/
+theorem EntryRefused.not_fits {e : LookupEnc} {k : String} {R T : List String} (wf : e.lookup.WF)
+    (r : EntryRefused e k) (hrec : Rec e.lookup.data R) (hpin : PinOK e.lookup R)
+    (hsub : ∀ x ∈ k :: R, x ∈ T) : ¬ Fits T e.lookup.maxSize := by
+  intro hfit
+  obtain ⟨k0, i0, rest, hk, hd, hfull, hp⟩ := r.ex
+  obtain ⟨old, recent, hdr, h1, h2⟩ := hrec
+  have hkeys := wf.keysNodup
+  have hk0R : k0 ∈ R := (hpin.isPinned k0).mp hp
+  cases old with
+  | nil =>
+    simp only [List.nil_append] at hdr
+    have hnd : (k :: e.lookup.data.map (·.1)).Nodup := List.nodup_cons.mpr ⟨hk, hkeys⟩
+    have hsub' : ∀ x ∈ k :: e.lookup.data.map (·.1), x ∈ T := by
+      intro x hx
+      rcases List.mem_cons.mp hx with rfl | hx
+      · exact hsub _ List.mem_cons_self
+      · obtain ⟨y, hy, rfl⟩ := List.mem_map.mp hx
+        rw [hdr] at hy
+        exact hsub _ (List.mem_cons_of_mem _ (h2 y hy))
+    have := hfit _ hnd hsub'
+    simp only [List.length_cons, List.length_map] at this
+    omega
+  | cons x old' =>
+    rw [hd] at hdr
+    simp only [List.cons_append] at hdr
+    injection hdr with hx hrest
+    have hrk := h1 k0 hk0R
+    rw [hd, hrest] at hkeys
+    simp only [List.map_cons, List.map_append, List.nodup_cons, List.mem_append] at hkeys
+    exact hkeys.1 (Or.inr hrk)
 
 theorem Rec.congr {data : List (String × Nat)} {R R' : List String} (h : Rec data R)
     (hiff : ∀ x, x ∈ R ↔ x ∈ R') : Rec data R' := by
@@ -468,20 +592,26 @@ structure TermStep (e e' : LookupEnc) (k : String) : Prop where
   la : e'.lastAssigned = e.lastAssigned
   mem : ∀ x, x ∈ e'.lookup.data ↔ x ∈ e.lookup.data
   recent : ∀ R, Rec e.lookup.data R → k ∈ R → Rec e'.lookup.data R
+  pinok : ∀ R, PinOK e.lookup R → k ∈ R → PinOK e'.lookup R
 
 theorem TermStep.same {e : LookupEnc} (wf : e.lookup.WF) (k : String) : TermStep e e k :=
-  ⟨wf, rfl, rfl, fun _ => Iff.rfl, fun _ h _ => h⟩
+  ⟨wf, rfl, rfl, fun _ => Iff.rfl, fun _ h _ => h, fun _ h _ => h⟩
+
+theorem cons_mem_iff {k : String} {R : List String} (hk : k ∈ R) (x : String) : x ∈ k :: R ↔ x ∈ R := by
+  simp only [List.mem_cons]
+  constructor
+  · rintro (rfl | hx)
+    · exact hk
+    · exact hx
+  · exact Or.inr
 
 theorem TermStep.bump {e : LookupEnc} (wf : e.lookup.WF) {k i} (h : (k, i) ∈ e.lookup.data) (r : Nat) :
     TermStep e { e with lookup := e.lookup.bump (k, i), lastReused := r } k :=
-  ⟨wf.bump h, rfl, rfl, fun _ => Lookup.mem_bump h, fun R hr hk =>
-    (hr.bump h).congr (fun x => by
-      simp only [List.mem_cons]
-      constructor
-      · rintro (rfl | hx)
-        · exact hk
-        · exact hx
-      · exact Or.inr)⟩
+  ⟨wf.bump h, by simp, rfl, fun _ => Lookup.mem_bump h,
+   fun R hr hk => by
+    have := (hr.bump h).congr (cons_mem_iff hk)
+    simpa using this,
+   fun R hp hk => (hp.cons (Lookup.bump_pinned _ _)).congr (cons_mem_iff hk)⟩
 
 theorem TermStep.mirror {e e' : LookupEnc} {k} {t : LookupDec} (s : TermStep e e' k) (m : EMirror e t) :
     EMirror e' t :=
@@ -615,76 +745,95 @@ structure Used (e e2 : LookupEnc) (k : String) (oid : Option Nat) (R : List Stri
   wf : e2.lookup.WF
   max : e2.lookup.maxSize = e.lookup.maxSize
   recent : Rec e2.lookup.data (k :: R)
+  pinok : PinOK e2.lookup (k :: R)
   pres : Pres (k :: R) e.lookup.data e2.lookup.data
   mirror : ∀ t, EMirror e t →
     ∃ t', ingestEntry t oid k = .ok t' ∧ EMirror e2 t' ∧ t'.lastReused = t.lastReused
 
-theorem entry_pkg {e : LookupEnc} {k : String} {R T : List String} (wf : e.lookup.WF)
-    (hpos : 0 < e.lookup.maxSize) (hrec : Rec e.lookup.data R) (hsub : ∀ x ∈ k :: R, x ∈ T)
-    (hfit : Fits T e.lookup.maxSize) :
+/-- `entryIndex` for one key of the current row: either it is refused (`JellyConformanceError`) — and
+    then the row does not fit, so this is excluded under the sizing hypothesis `F` — or it succeeds and
+    the bookkeeping is re-established. -/
+theorem entry_pkg {F : Prop} {e : LookupEnc} {k : String} {R T : List String} (wf : e.lookup.WF)
+    (hpos : 0 < e.lookup.maxSize) (hrec : Rec e.lookup.data R) (hpin : PinOK e.lookup R)
+    (hsub : ∀ x ∈ k :: R, x ∈ T) (hfit : F → Fits T e.lookup.maxSize) :
+    (¬ F ∧ e.entryIndex k = .error .conformance) ∨
     ∃ e1 oid i, e.entryIndex k = .ok (e1, oid) ∧ e1.lookup.WF ∧ e1.lookup.maxSize = e.lookup.maxSize ∧
       e1.lastReused = e.lastReused ∧ (k, i) ∈ e1.lookup.data ∧ Rec e1.lookup.data (k :: R) ∧
+      PinOK e1.lookup (k :: R) ∧
       Pres (k :: R) e.lookup.data e1.lookup.data ∧
       (∀ t, EMirror e t →
         ∃ t', ingestEntry t oid k = .ok t' ∧ EMirror e1 t' ∧ t'.lastReused = t.lastReused) := by
-  obtain ⟨e1, oid, heq, c⟩ := entryIndex_cases wf hpos k
-  obtain ⟨wf1, hmax, hlr, i, hi⟩ := c.basic wf hpos
-  obtain ⟨hrec1, hpres⟩ := c.lru wf hrec hsub hfit
-  exact ⟨e1, oid, i, heq, wf1, hmax, hlr, hi, hrec1, hpres, fun t m => c.mirror wf m⟩
+  rcases entryIndex_cases wf hpos k with ⟨e1, oid, heq, c⟩ | hr
+  · right
+    obtain ⟨wf1, hmax, hlr, i, hi⟩ := c.basic wf hpos
+    obtain ⟨hrec1, hpres, hpin1⟩ := c.lru wf hrec hpin
+    exact ⟨e1, oid, i, heq, wf1, hmax, hlr, hi, hrec1, hpin1, hpres, fun t m => c.mirror wf m⟩
+  · left
+    exact ⟨fun hF => hr.not_fits wf hrec hpin hsub (hfit hF), hr.err⟩
 
 theorem Used.of_step {e e1 e2 : LookupEnc} {k oid} {R : List String}
     (hmax : e1.lookup.maxSize = e.lookup.maxSize)
-    (hrec1 : Rec e1.lookup.data (k :: R)) (hpres : Pres (k :: R) e.lookup.data e1.lookup.data)
+    (hrec1 : Rec e1.lookup.data (k :: R)) (hpin1 : PinOK e1.lookup (k :: R))
+    (hpres : Pres (k :: R) e.lookup.data e1.lookup.data)
     (hmir : ∀ t, EMirror e t →
         ∃ t', ingestEntry t oid k = .ok t' ∧ EMirror e1 t' ∧ t'.lastReused = t.lastReused)
     (s : TermStep e1 e2 k) : Used e e2 k oid R :=
-  ⟨s.wf, by rw [s.max, hmax], s.recent _ hrec1 List.mem_cons_self,
+  ⟨s.wf, by rw [s.max, hmax], s.recent _ hrec1 List.mem_cons_self, s.pinok _ hpin1 List.mem_cons_self,
    fun k' i' hk' h => (s.mem _).mpr (hpres k' i' hk' h),
    fun t m => by
      obtain ⟨t', h1, h2, h3⟩ := hmir t m
      exact ⟨t', h1, s.mirror h2, h3⟩⟩
 
-theorem useName {e : LookupEnc} {k : String} {R T : List String} (wf : e.lookup.WF)
-    (hpos : 0 < e.lookup.maxSize) (hrec : Rec e.lookup.data R) (hsub : ∀ x ∈ k :: R, x ∈ T)
-    (hfit : Fits T e.lookup.maxSize) :
+theorem useName {F : Prop} {e : LookupEnc} {k : String} {R T : List String} (wf : e.lookup.WF)
+    (hpos : 0 < e.lookup.maxSize) (hrec : Rec e.lookup.data R) (hpin : PinOK e.lookup R)
+    (hsub : ∀ x ∈ k :: R, x ∈ T) (hfit : F → Fits T e.lookup.maxSize) :
+    (¬ F ∧ e.entryIndex k = .error .conformance) ∨
     ∃ e1 oid e2 id, e.entryIndex k = .ok (e1, oid) ∧ e1.nameTermIndex k = .ok (e2, id) ∧
       Used e e2 k oid R ∧ e2.lastAssigned = e1.lastAssigned ∧
       ∀ t, AgreeOn (k :: R) e2.lookup.data t →
         Spec.resolveName { t with lastReused := e.lastReused } id
           = .ok ({ t with lastReused := e2.lastReused }, k) := by
-  obtain ⟨e1, oid, i, heq, wf1, hmax, hlr, hi, hrec1, hpres, hmir⟩ := entry_pkg wf hpos hrec hsub hfit
+  rcases entry_pkg wf hpos hrec hpin hsub hfit with h | ⟨e1, oid, i, heq, wf1, hmax, hlr, hi, hrec1, hpin1, hpres, hmir⟩
+  · exact Or.inl h
+  right
   obtain ⟨id, hti, hres⟩ := nameTermIndex_sim wf1 hi
-  refine ⟨e1, oid, _, id, heq, hti, Used.of_step hmax hrec1 hpres hmir (TermStep.bump wf1 hi i), rfl, ?_⟩
+  refine ⟨e1, oid, _, id, heq, hti, Used.of_step hmax hrec1 hpin1 hpres hmir (TermStep.bump wf1 hi i), rfl, ?_⟩
   intro t ha
   rw [← hlr]
   exact hres t (ha k i List.mem_cons_self ((Lookup.mem_bump hi).mpr hi))
 
-theorem usePrefix {e : LookupEnc} {k : String} {R T : List String} (wf : e.lookup.WF)
-    (hpos : 0 < e.lookup.maxSize) (hrec : Rec e.lookup.data R) (hsub : ∀ x ∈ k :: R, x ∈ T)
-    (hfit : Fits T e.lookup.maxSize) :
+theorem usePrefix {F : Prop} {e : LookupEnc} {k : String} {R T : List String} (wf : e.lookup.WF)
+    (hpos : 0 < e.lookup.maxSize) (hrec : Rec e.lookup.data R) (hpin : PinOK e.lookup R)
+    (hsub : ∀ x ∈ k :: R, x ∈ T) (hfit : F → Fits T e.lookup.maxSize) :
+    (¬ F ∧ e.entryIndex k = .error .conformance) ∨
     ∃ e1 oid e2 id, e.entryIndex k = .ok (e1, oid) ∧ e1.prefixTermIndex k = .ok (e2, id) ∧
       Used e e2 k oid R ∧
       ∀ t, AgreeOn (k :: R) e2.lookup.data t →
         Spec.resolvePrefix { t with lastReused := e.lastReused } id
           = .ok ({ t with lastReused := e2.lastReused }, k) := by
-  obtain ⟨e1, oid, i, heq, wf1, hmax, hlr, hi, hrec1, hpres, hmir⟩ := entry_pkg wf hpos hrec hsub hfit
+  rcases entry_pkg wf hpos hrec hpin hsub hfit with h | ⟨e1, oid, i, heq, wf1, hmax, hlr, hi, hrec1, hpin1, hpres, hmir⟩
+  · exact Or.inl h
+  right
   obtain ⟨e2, id, hti, hstep, hres⟩ := prefixTermIndex_sim wf1 (by rw [hmax]; exact hpos) hi
-  refine ⟨e1, oid, e2, id, heq, hti, Used.of_step hmax hrec1 hpres hmir hstep, ?_⟩
+  refine ⟨e1, oid, e2, id, heq, hti, Used.of_step hmax hrec1 hpin1 hpres hmir hstep, ?_⟩
   intro t ha
   rw [← hlr]
   exact hres t (ha k i List.mem_cons_self ((hstep.mem _).mpr hi))
 
-theorem useDatatype {e : LookupEnc} {k : String} {R T : List String} (wf : e.lookup.WF)
-    (hpos : 0 < e.lookup.maxSize) (hrec : Rec e.lookup.data R) (hsub : ∀ x ∈ k :: R, x ∈ T)
-    (hfit : Fits T e.lookup.maxSize) :
+theorem useDatatype {F : Prop} {e : LookupEnc} {k : String} {R T : List String} (wf : e.lookup.WF)
+    (hpos : 0 < e.lookup.maxSize) (hrec : Rec e.lookup.data R) (hpin : PinOK e.lookup R)
+    (hsub : ∀ x ∈ k :: R, x ∈ T) (hfit : F → Fits T e.lookup.maxSize) :
+    (¬ F ∧ e.entryIndex k = .error .conformance) ∨
     ∃ e1 oid e2 id, e.entryIndex k = .ok (e1, oid) ∧ e1.datatypeTermIndex k = .ok (e2, id) ∧
       Used e e2 k oid R ∧ id ≠ 0 ∧
       ∀ t, AgreeOn (k :: R) e2.lookup.data t →
         Spec.resolveDatatype { t with lastReused := e.lastReused } id
           = .ok ({ t with lastReused := e2.lastReused }, k) := by
-  obtain ⟨e1, oid, i, heq, wf1, hmax, hlr, hi, hrec1, hpres, hmir⟩ := entry_pkg wf hpos hrec hsub hfit
+  rcases entry_pkg wf hpos hrec hpin hsub hfit with h | ⟨e1, oid, i, heq, wf1, hmax, hlr, hi, hrec1, hpin1, hpres, hmir⟩
+  · exact Or.inl h
+  right
   obtain ⟨hti, hne, hres⟩ := datatypeTermIndex_sim wf1 (by rw [hmax]; exact hpos) hi
-  refine ⟨e1, oid, _, i, heq, hti, Used.of_step hmax hrec1 hpres hmir (TermStep.bump wf1 hi i), hne, ?_⟩
+  refine ⟨e1, oid, _, i, heq, hti, Used.of_step hmax hrec1 hpin1 hpres hmir (TermStep.bump wf1 hi i), hne, ?_⟩
   intro t ha
   rw [← hlr]
   exact hres t (ha k i List.mem_cons_self ((Lookup.mem_bump hi).mpr hi))
